@@ -6,7 +6,7 @@
    given the C05 invariant (every (source, event) pair listed at most once). *)
 From Coq Require Import Reals ZArith List Bool Lra Lia Arith.
 From Coquelicot Require Import Coquelicot.
-From Sky Require Import Num NumR G_llh M_Llh M_LlhPipe M_LlhGrad S_Llh S_LlhPipe S_LlhGrad
+From Sky Require Import Num NumR G_llh G_layout M_Llh M_LlhPipe M_LlhGrad S_Llh S_LlhPipe S_LlhGrad
   P_Llh P_LlhK P_LlhValue P_LlhC1 P_LlhCompose P_LlhDeriv P_LlhGrad.
 Import ListNotations.
 Open Scope R_scope.
@@ -176,5 +176,22 @@ Section S.
         with (Rsum (map (fun k => dLk k * Ak k t0 + Lk k t0 * dAk k) (seq 0 (length aks))))
         by (f_equal; apply map_ext; intros k; rewrite EL, EA, EdL; unfold dAk; ring).
       unfold a_at in *. field. exact HA.
+  Qed.
+
+  (* ---- SigOverBkgPDFRatio.get_gradient: the separately computed mask and the four cases *)
+  Lemma K_lk_sobg_mask b : lk_sobg_mask Nm b = Rltb 0 b.
+  Proof. unfold lk_sobg_mask. num_R. reflexivity. Qed.
+
+  (* the executed model of one row (M_LlhGrad.sob_eval) is, case by case, the gradient function the
+     quotient-rule theorems (P_WeightsDeriv) are about; rows with non-positive background get 0 *)
+  Theorem sob_eval_cases z s ds b db :
+    snd (sob_eval Nm z s ds b db false false) = 0
+    /\ snd (sob_eval Nm z s ds b db true false) = sob_grad_sig Nm ds b
+    /\ snd (sob_eval Nm z s ds b db true true) = sob_grad_both Nm s ds b db
+    /\ snd (sob_eval Nm z s ds b db false true) = sob_grad_bkg Nm s b db
+    /\ fst (sob_eval Nm z s ds b db false false) = sob_ratio Nm z s b.
+  Proof.
+    unfold sob_eval, sob_grad_sig, sob_grad_both, sob_grad_bkg. cbn [fst snd].
+    rewrite K_lk_sobg_mask, K_sob_mask. cbn. repeat split.
   Qed.
 End S.
